@@ -27,6 +27,9 @@ func (h *anteH) randFreezeCfg(nval int) cfgSpec {
 	all := []string{"frozen", "ubtc", "xeth", "ueth", "ukex", "tka"}
 	s.black = subset(r, all, 0.4)
 	s.white = subset(r, all, 0.5)
+	if r.Rng.Intn(8) == 0 {
+		s.black, s.white = nil, nil // both lists emptied
+	}
 	s.poorMax = pick(r, []uint64{1, 500, 1000000})
 	switch r.Rng.Intn(10) {
 	case 0, 1:
